@@ -242,6 +242,11 @@ def run_shard(ctx):
                 kw['default_namespace'] = want_int
             desc = dict(desc, renamed=want_int)
             acc.count('non_ascii_integration_name')
+        own_schema = kind == 'gen' and idx % 13 == 6 and want_int == 'int1' and 'int1.t1' in text
+        if own_schema:
+            # a schema spelled like the integration itself: `int1.int1.t1` is the table `int1.t1` of int1 - exactly one qualifier goes
+            plan_text = text.replace('int1.t1', 'int1.int1.t1')
+            acc.count('schema_named_like_own_integration')
         try:
             tree = parse_sql(plan_text, 'mindsdb')
         except Exception:
@@ -261,6 +266,14 @@ def run_shard(ctx):
         if len(steps) != 1 or type(steps[0]).__name__ != 'FetchDataframeStep' or str(steps[0].integration).lower() != want_int:
             acc.fail({'defect': 'not-a-single-fetch', 'shape': label, 'nsteps': min(len(steps), 5)},
                      {'text': text, 'catalog': desc, 'plan': [repr(s)[:160] for s in steps][:6]})
+            continue
+        if own_schema:
+            bad_parts = [[str(x) for x in o.parts] for _, o in monitors.walk(steps[0].query)
+                         if type(o).__name__ == 'Identifier' and 't1' in [str(x).lower() for x in o.parts] and
+                         [str(x).lower() for x in o.parts][:[str(x).lower() for x in o.parts].index('t1') + 1] not in (['int1', 't1'], ['t1'] if False else ['int1', 't1'])]
+            # (column references keep `p.`-style aliases in this generator, so only table references mention t1)
+            if bad_parts:
+                acc.fail({'defect': 'schema-part-cut-with-the-integration-qualifier', 'shape': label}, {'text': plan_text, 'identifiers': bad_parts[:4], 'catalog': desc})
             continue
         try:
             sql2 = pushed_sql(steps[0])
